@@ -253,6 +253,10 @@ fn settings_from(inp: &Value) -> DefaultSettings<f64> {
     if let Some(b) = inp.get("max_iter").and_then(|x| x.as_u64()) { s.max_iter = b as u32; }
     if let Some(b) = inp.get("equilibrate").and_then(|x| x.as_bool()) { s.equilibrate_enable = b; }
     if let Some(b) = inp.get("presolve").and_then(|x| x.as_bool()) { s.presolve_enable = b; }
+    if let Some(b) = inp.get("ir").and_then(|x| x.as_bool()) { s.iterative_refinement_enable = b; }
+    if let Some(b) = inp.get("dyn_reg").and_then(|x| x.as_bool()) { s.dynamic_regularization_enable = b; }
+    if let Some(v) = inp.get("sreg_c").and_then(|x| x.as_f64()) { s.static_regularization_constant = v; }
+    if let Some(v) = inp.get("sreg_p").and_then(|x| x.as_f64()) { s.static_regularization_proportional = v; }
     s
 }
 
@@ -266,11 +270,14 @@ fn driven_case(inp: &Value) -> Option<String> {
     let ct: Vec<SupportedConeT<f64>> = cones.iter().map(|c| c.cone()).collect();
     let settings = settings_from(inp);
     let static_reg = settings.static_regularization_enable;
+    let (sreg_c, sreg_p) = (settings.static_regularization_constant, settings.static_regularization_proportional);
+    let check_each = inp.get("check_each").and_then(|x| x.as_bool()).unwrap_or(false);
     let pts = inp["points"].as_array().unwrap().clone();
     let r = guarded(move || {
         let mut d = vh::Driven::new(&p.csc(), &a.csc(), &ct, settings);
         let mut ok = true;
         let mut nfail = 0usize;
+        let mut each: Vec<ValObs> = vec![];
         for pt in pts.iter() {
             // failure histories: poison one data value (NaN / inf) through the real update_P / update_A,
             // or put the original data back
@@ -302,18 +309,34 @@ fn driven_case(inp: &Value) -> Option<String> {
             ok = d.kkt_update();
             if !ok && may_fail { nfail += 1; ok = true; continue; }   // an expected failed factorisation: keep using the solver
             if !ok { break; }
+            if check_each {
+                // observe the state after EVERY update
+                let infos = d.cone_infos();
+                let hs = d.get_Hs();
+                let hblocks = hblocks_from(&infos, &mut |x| d.mul_Hs(x));
+                each.push(ValObs { snap: d.snapshot(), infos, hs, hblocks, p: p.clone(), a: a.clone() });
+            }
         }
         LAST_FAILS.store(nfail, std::sync::atomic::Ordering::SeqCst);
         if !ok { return None; }
         let infos = d.cone_infos();
         let hs = d.get_Hs();
         let hblocks = hblocks_from(&infos, &mut |x| d.mul_Hs(x));
-        Some(ValObs { snap: d.snapshot(), infos, hs, hblocks, p, a })
+        Some((ValObs { snap: d.snapshot(), infos, hs, hblocks, p, a }, each))
     });
     match r {
         None => Some("1%N".into()),       // panic on a well-formed input
         Some(None) => None,               // scaling/factorisation reported failure: nothing to compare
-        Some(Some(o)) => if all_finite(&o) {
+        Some(Some((o, each))) => if check_each {
+            if each.is_empty() || !each.iter().all(all_finite) { return None; }
+            // one conjunct per update: values + the regulariser of THAT call
+            let parts: Vec<String> = each.iter().map(|e| {
+                let k = Raw::of(&e.snap.K);
+                format!("(N.max {} (c_eps {} {} {} {} {} {}))", val_coq(e, static_reg), dyl(&k.nzval), cnlist(&e.snap.maps.diag_full),
+                        cdy(e.snap.eps), cdy(sreg_c), cdy(sreg_p), static_reg)
+            }).collect();
+            Some(format!("(maxl [{}])", parts.join(";")))
+        } else if all_finite(&o) {
             let last_identity = inp["points"].as_array().and_then(|a| a.last()).and_then(|p| p.get("identity")).and_then(|x| x.as_bool()).unwrap_or(false);
             Some(with_identity(val_coq(&o, static_reg), &o, last_identity))
         } else { None },
@@ -871,6 +894,59 @@ fn gen_failure_histories(sink: &mut CaseSink, st: &mut Stats, rng: &mut Rng, tho
     }
 }
 
+/// settings histories: every combination of iterative refinement / static regularisation / dynamic
+/// regularisation on-off and static (constant, proportional) in {default, 0, 1e-4}, 3..6 successive
+/// updates with changing scalings on one solver object, everything checked after EVERY update
+fn gen_settings_histories(sink: &mut CaseSink, st: &mut Stats, rng: &mut Rng, thorough: bool) {
+    let pool: Vec<CD> = vec![CD::Z(1), CD::NN(2), CD::SOC(3), CD::SOC(5), CD::SOC(6), CD::EXP, CD::GP(alpha_for(2), 1), CD::PSD(2)];
+    let consts: [Option<f64>; 3] = [None, Some(0.0), Some(1e-4)];
+    let mut combos = vec![];
+    for ir in [true, false] { for sr in [true, false] { for dr in [true, false] { for c in consts.iter() { for pr in consts.iter() {
+        combos.push((ir, sr, dr, *c, *pr));
+    }}}}}
+    let reps = if thorough { 3 } else { 1 };
+    for (idx, (ir, sr, dr, c, pr)) in combos.iter().cycle().take(combos.len() * reps).enumerate() {
+        // quick: all 72 combinations once, but only every other one with static regularisation off
+        if !thorough && !*sr && idx % 2 == 1 { continue; }
+        let nc = 1 + rng.below(3);
+        let mut cs: Vec<CD> = (0..nc).map(|_| rng.pick(&pool).clone()).collect();
+        // without any regularisation a zero cone gives an exactly zero pivot, which QDLDL reports by
+        // panicking (C12's business, not C11's): keep those layouts out of the unregularised runs
+        if !*sr && !*dr { for c in cs.iter_mut() { if matches!(c, CD::Z(_)) { *c = CD::NN(1); } } }
+        let m: usize = cs.iter().map(|c| c.numel()).sum();
+        let n = 1 + rng.below(3);
+        let mut p = rand_p(rng, n, 1, 3, 4);
+        for (k, v) in p.nzval.iter_mut().enumerate() { *v = 0.125 * ((k % 5) as f64 + 1.0); }
+        for j in 0..n { let e = p.colptr[j + 1]; if e > p.colptr[j] && p.rowval[e - 1] == j { p.nzval[e - 1] = 4.0 + j as f64 * 0.5; } }
+        let mut a = rand_a(rng, m, n, 1, 2);
+        for v in a.nzval.iter_mut() { *v = dy8(rng, -16, 16); }
+        let ct: Vec<SupportedConeT<f64>> = cs.iter().map(|c| c.cone()).collect();
+        let nonsym = cs.iter().any(|c| matches!(c, CD::EXP | CD::POW(_) | CD::GP(_, _)));
+        let nup = 3 + rng.below(4);
+        let mut pts = vec![];
+        let mut okp = true;
+        for _ in 0..nup {
+            match guarded(|| {
+                let (s, z) = interior_point(rng, &cs, &ct, &p, &a, 0.8);
+                let mu = (s.iter().zip(z.iter()).map(|(x, y)| x * y).sum::<f64>() / (m.max(1) as f64)).abs().max(1e-3);
+                json!({"s": s, "z": z, "mu": mu, "dual": nonsym})
+            }) { Some(v) => pts.push(v), None => okp = false }
+        }
+        if !okp { continue; }
+        let mut inp = json!({"P": p.json(), "A": a.json(), "cones": cds_json(&cs), "points": pts, "check_each": true,
+                             "method": if idx % 7 == 6 { "faer" } else { "qdldl" },
+                             "static_reg": sr, "ir": ir, "dyn_reg": dr});
+        if let Some(v) = c { inp["sreg_c"] = json!(v); }
+        if let Some(v) = pr { inp["sreg_p"] = json!(v); }
+        if let Some(coq) = driven_case(&inp) {
+            st.hit(&format!("values/settings-history ir={} static={} dyn={}", ir, sr, dr));
+            sink.case("driven", inp, coq, &["values", "settings-history"]);
+        } else {
+            st.hit("values/settings-history-skipped");
+        }
+    }
+}
+
 fn replay_case(sink: &mut CaseSink, case: &Value) {
     let op = case["op"].as_str().unwrap_or("assemble");
     let inp = &case["input"];
@@ -927,6 +1003,7 @@ fn main() {
         gen_values_reset(&mut sink, &mut st, &mut rng, thorough);
         gen_mapops(&mut sink, &mut st, &mut rng, thorough);
         gen_failure_histories(&mut sink, &mut st, &mut rng, thorough);
+        gen_settings_histories(&mut sink, &mut st, &mut rng, thorough);
         sink.record(json!({"stats": st.by}));
     }
     sink.record(json!({"meta": {"prop": "c11", "seed": seed, "tier": tier, "blas": blas_shim::AVAILABLE}}));
